@@ -1797,10 +1797,10 @@ def gen_conc_cases(chk):
                         specs.append({"kind": "single"})
                     for sp in specs:
                         out.append(conc_case(N, D, slack, kind, "hook", sp))
-    # line level (harness/sched.py): two threads, every single pre-emption (quick: every 3rd line)
-    for D, slack, kind in (((1, 0, "own"), (2, 0, "own"), (2, 1, "mixed"), (3, 0, "same"), (2, None, "mixed"))
-                           if thorough else ((2, 0, "own"),)):
-        out.append(conc_case(2, D, slack, kind, "line", {"kind": "single", "stride": 1 if thorough else 3}))
+    # line level (harness/sched.py): two threads, single pre-emptions before every line (or every 2nd / 3rd)
+    for D, slack, kind, stride in (((1, 0, "own", 1), (2, 0, "own", 2), (2, 1, "mixed", 3), (3, 0, "same", 3))
+                                   if thorough else ((2, 0, "own", 3),)):
+        out.append(conc_case(2, D, slack, kind, "line", {"kind": "single", "stride": stride}))
     # free-running threads (sampled schedules)
     for N, D in (((5, 6), (8, 4), (3, 7), (2, 6)) if thorough else ((5, 6), (8, 4))):
         out.append(conc_case(N, D, 0, "own", "free", {"kind": "free", "rounds": 5 if thorough else 3}))
@@ -1850,7 +1850,7 @@ def run(chk):
                 "every clock read (per call and per visited node) and every predicate call: round robin with quantum 1 "
                 "and 2, seeded random, all single pre-emptions (2 threads; thorough <= 3); two threads under the "
                 "line-level scheduler harness/sched.py over rbacx/rebac/local.py with single pre-emptions before every "
-                "(quick: every 3rd) source line; a few rounds of free-running threads with yielding predicates (sampled "
+                "(or every 2nd / 3rd; quick: every 3rd) source line; a few rounds of free-running threads with yielding predicates (sampled "
                 "schedules); non-trivial = at least two threads ran and (>= 2 nodes visited or answered true)")
     chk.assumptions = [
         "subjects, relations, objects and caveat names are str; max_depth/max_nodes/deadline_ms are int",
